@@ -77,7 +77,17 @@ MixQ == {<<op, z, e>> : op \in QArith, z \in MixZ, e \in MixQSub} \cup {<<op, e,
         \cup {<<"/", z, NZQ(e)>> : z \in MixZ, e \in MixQSub} \cup {<<"/", e, NZQ(z)>> : z \in MixZ, e \in MixQSub}
         \cup {<<c, z, e>> : c \in {"<", "==", "cmp"}, z \in MixZ, e \in MixQSub} \cup {<<c, e, z>> : c \in {"<", "cmp"}, z \in MixZ, e \in MixQSub}
         \cup {<<op, <<op2, z, e>>, y>> : op \in {"+", "*"}, op2 \in {"+", "-"}, z \in MixZ, e \in {<<"v", "r">>, <<"*", <<"v", "q">>, <<"v", "r">>>>}, y \in {<<"v", "q">>, <<"v", "qd">>, <<"ui", "7">>}}
-Trees == IF KIND = "z" THEN D1Z \cup Un1Z \cup D2Z ELSE IF KIND = "q" THEN D1Q \cup D2Q \cup MixQ ELSE D1F \cup Un1F \cup D2F
+(* ---- literal operands for which mpirxx.h has compile-time shortcuts (__GMPXX_CONSTANT: zero, one, powers of two as multiplier / divisor / addend); the
+   generated units that hold these trees are compiled a second time WITH optimisation, without which the shortcuts are dead code (seed C20d) ---- *)
+KLit == {<<"si", "0">>, <<"si", "1">>, <<"si", "2">>, <<"si", "-4">>, <<"ui", "8">>, <<"si", "-1">>, <<"ui", "0">>, <<"si", "-8000000000000000">>, <<"ui", "8000000000000000">>}
+KNZ == KLit \ {<<"si", "0">>, <<"ui", "0">>}
+ConstZ == {<<op, x, k>> : op \in {"+", "-", "*"}, x \in {<<"v", "a">>, <<"v", "b">>, <<"v", "c">>}, k \in KLit}
+          \cup {<<op, k, x>> : op \in {"+", "-", "*"}, x \in {<<"v", "a">>, <<"v", "b">>}, k \in KLit}
+          \cup {<<op, x, k>> : op \in ZDiv, x \in {<<"v", "a">>, <<"v", "b">>, <<"v", "c">>}, k \in KNZ}
+          \cup {<<op, <<"neg", x>>, k>> : op \in ZDiv, x \in {<<"v", "a">>, <<"v", "b">>}, k \in {<<"si", "2">>, <<"si", "-4">>, <<"ui", "8">>}}
+ConstQ == {<<op, x, k>> : op \in {"+", "-", "*"}, x \in {<<"v", "q">>, <<"v", "r">>}, k \in KLit} \cup {<<op, k, x>> : op \in {"+", "-", "*"}, x \in {<<"v", "q">>, <<"v", "r">>}, k \in KLit}
+          \cup {<<"/", x, k>> : x \in {<<"v", "q">>, <<"v", "r">>}, k \in KNZ} \cup {<<"/", k, NZQ(x)>> : x \in {<<"v", "q">>, <<"v", "r">>}, k \in KLit}
+Trees == IF KIND = "z" THEN D1Z \cup Un1Z \cup D2Z \cup ConstZ ELSE IF KIND = "q" THEN D1Q \cup D2Q \cup MixQ \cup ConstQ ELSE D1F \cup Un1F \cup D2F
 ASSUME \A t \in Trees : PrintT(<<"TREE", KIND, t>>)
 ASSUME PrintT(<<"CxxExpr", KIND, Cardinality(Trees)>>)
 VARIABLE dummy
